@@ -91,7 +91,8 @@ pub fn budget(prop: &str) -> Budget {
 pub fn mem_cap(prop: &str) -> u64 {
     match prop {
         "C19" => 1 << 30,
-        _ => 6 << 30,
+        // address space is not memory: elsewhere only the resident-set guard of the worker applies
+        _ => 0,
     }
 }
 
@@ -116,7 +117,10 @@ fn profile_for(prop: &str) -> Profile {
     let mut p = Profile::default();
     match prop {
         "C01" => p.kind = Some(Kind::Wig),
-        "C02" => p.kind = Some(Kind::Bed),
+        "C02" => {
+            p.kind = Some(Kind::Bed);
+            p.bed_past_end = true;
+        }
         "C07" => {
             p.kind = Some(Kind::Wig);
             p.zoom_focus = true;
